@@ -61,7 +61,9 @@ FullCfg(c) == [reclaim |-> c.reclaim, gossipDead |-> c.gossipDead, allowOn |-> c
 Allowed(a) == ~cfg.allowOn \/ a \in AllowedAddrs \cup {SelfAddr}
 
 MemberOf(name, r) == [name |-> name, addr |-> r.addr, port |-> r.port, meta |-> r.meta]
-FillerMembers == {[name |-> f, addr |-> "F", port |-> Port, meta |-> ""] : f \in Fillers}
+\* (state-level on purpose: TLC shares constant-level values between workers and
+\* normalises them lazily, which is not thread safe for sets of records)
+FillerMembers == {[name |-> f, addr |-> "F", port |-> Port, meta |-> ""] : f \in IF nn >= 0 THEN Fillers ELSE {}}
 MembersOf(rr) == {MemberOf(m, rr[m]) : m \in {x \in Names : Listed(rr[x])}} \cup FillerMembers
 
 X(name, claimAddr, claimMeta) ==
